@@ -262,6 +262,10 @@ PROPS["C08"] = {
           "text of 0..3 arbitrary Unicode scalar values, k in 0..=5", timeout=900, mem_gb=10),
         H("chars_first_non_space_any_text", "nitrogql-utils", "crates/utils/src/chars.rs", "utils/chars_h.rs", "verif_chars", ["first_non_space_byte_index"],
           "text of 0..3 arbitrary Unicode scalar values", timeout=900, mem_gb=10),
+        H("chars_n5_skip_chars", "nitrogql-utils", "crates/utils/src/chars.rs", "utils/chars_h.rs", "verif_chars", ["skip_chars"],
+          "text of 0..5 arbitrary Unicode scalar values, k in 0..=7; also: the result is a suffix of the input (same end address)", tiers=("thorough",), timeout=1800, mem_gb=16),
+        H("chars_n5_first_non_space", "nitrogql-utils", "crates/utils/src/chars.rs", "utils/chars_h.rs", "verif_chars", ["first_non_space_byte_index"],
+          "text of 0..5 arbitrary Unicode scalar values", tiers=("thorough",), timeout=1800, mem_gb=16),
     ],
 }
 
